@@ -63,12 +63,18 @@ impl RecoveryThread {
         let thread = spawn(move || loop {
             for panicking_thread in &rx {
                 let mut threads = threads.lock().unwrap();
+                #[cfg(humphrey_verif)]
+                crate::thread::verif::pool_event(crate::thread::verif::PoolEvent::RecoveryRecv(panicking_thread));
 
                 // End the OS thread that panicked.
                 if let Some(thread) = threads[panicking_thread].os_thread.take() {
                     thread.join().ok();
                 }
 
+                #[cfg(humphrey_verif)]
+                crate::thread::verif::pool_event(crate::thread::verif::PoolEvent::RecoveryJoined(panicking_thread));
+                #[cfg(humphrey_verif)]
+                crate::thread::verif::pool_event(crate::thread::verif::PoolEvent::RecoveryRespawn(panicking_thread));
                 // Start a new thread with the same ID.
                 let restarted_thread = Thread::new(
                     panicking_thread,
@@ -97,6 +103,8 @@ impl RecoveryThread {
 impl Drop for PanicMarker {
     fn drop(&mut self) {
         if panicking() {
+            #[cfg(humphrey_verif)]
+            crate::thread::verif::pool_event(crate::thread::verif::PoolEvent::MarkerSend(self.0));
             self.1.send(self.0).ok();
         }
     }
